@@ -13,6 +13,7 @@ func init() {
 		lean:    []string{"JSight.Props.C13"},
 		exes:    []string{"jsight-model"},
 		run:     runC13,
+		assume:  []string{"the binding of declared Path schemas to interactions is decided by search against the declarative binding; the theorems cover the (prefix, name) split and its checks"},
 		rule:    "path strings: all strings over {/,{,},a,b} up to the length bound + random; a case is non-trivial when the path has at least one {..} segment; path trees: generated documents with shared prefixes, parameters at any depth, Path under URL or method, and faulty variants",
 		trusted: []string{"modelled, not verified: strings.Trim/Split/Join (byte-level models in Model/PathPar.lean)"},
 	}
